@@ -538,10 +538,83 @@ BOS_EXC = {
 }
 
 
+def remap_snapshot(ctx, rule="C08.remap"):
+    """positions obtained from _remap_modes are a snapshot of the mode map: they are stale once the layout of the Fock tensor
+    has changed (alloc / dealloc / reset of the circuit, add / delete in the mode map)"""
+    ctx.explain(f"{rule}: (snapshot) in FockBackend no value derived from self._remap_modes(...) is handed to the circuit on a "
+                "path that has passed a layout-changing call (circuit.alloc / dealloc / reset, _modemap.add / delete / reset) "
+                "since the remapping - tensor positions shift when a mode is traced out.")
+    cls = ctx.tree.cls("backends/fockbackend/backend.py", "FockBackend")
+    LAYOUT = {"self.circuit.alloc", "self.circuit.dealloc", "self.circuit.reset", "self._modemap.add", "self._modemap.delete",
+              "self._modemap.reset"}
+    n = 0
+    for name, f in sorted(cls.methods.items()):
+        cfg = cfg_of(f.node)
+        remaps = [c for c in walk_no_nested(f.node) if isinstance(c, ast.Call) and dotted(c.func) == "self._remap_modes"]
+        if not remaps:
+            continue
+        layout = [c for c in walk_no_nested(f.node) if isinstance(c, ast.Call) and dotted(c.func) in LAYOUT]
+        uses = []
+        for c in walk_no_nested(f.node):
+            if isinstance(c, ast.Call) and (dotted(c.func) or "").startswith("self.circuit.") and c.args:
+                ids = cfg.node_of_expr(c)
+                if not ids:
+                    continue
+                for a in c.args:
+                    d = derives(f.node, a, ids[0])
+                    if d.has_call("self._remap_modes"):
+                        uses.append((c, ids[0]))
+                        break
+        n += 1
+        bad = None
+        # (the iterable of a `for` is evaluated once: passing the loop header again does not refresh the snapshot)
+        rids = {cfg.node_of_expr(r)[0] for r in remaps if cfg.node_of_expr(r) and cfg.node(cfg.node_of_expr(r)[0]).kind != "for"}
+        for lc in layout:
+            lids = cfg.node_of_expr(lc)
+            if not lids:
+                continue
+            after = cfg.reachable([b for b, lab in cfg.succ[lids[0]] if lab != "x"], avoid=rids, exc=False)
+            for uc, uid in uses:
+                if uid in after:
+                    bad = (lc, uc)
+        ctx.ob(rule, f.site, bad is None, "" if bad is None else
+               f"`{ast.unparse(bad[1])[:50]}` uses positions remapped before `{ast.unparse(bad[0])[:40]}` changed the layout: the "
+               "positions of the remaining modes have shifted (the wrong mode is acted on)", role="snapshot",
+               line=(bad[1].lineno if bad else f.node.lineno))
+    ctx.floor(rule, 20)
+
+
+def lifecycle(ctx, rule="C08.validation"):
+    ctx.explain(f"{rule}: (lifecycle) Program._linked_copy locks the SOURCE program on every path (the copy shares its RegRefs: a "
+                "source that stays open can create / delete subsystems behind the simulator's back); the engine initialises the "
+                "backend with the INITIAL number of subsystems of the first program.")
+    f = ctx.tree.func(PROG, "Program._linked_copy")
+    cfg = cfg_of(f.node)
+    locks = [cfg.node_of_expr(c)[0] for c in walk_no_nested(f.node) if isinstance(c, ast.Call) and dotted(c.func) == "self.lock"
+             and cfg.node_of_expr(c)]
+    locks += [cfg.find(n)[0] for n in walk_no_nested(f.node) if isinstance(n, ast.Assign) and dotted(n.targets[0]) == "self.locked"
+              and isinstance(n.value, ast.Constant) and n.value.value is True and cfg.find(n)]
+    ok = bool(locks) and cfg.must_pass(cfg.entry, locks, exits=[cfg.exit], exc=False)
+    ctx.ob(rule, f.site, ok, "" if ok else "_linked_copy no longer locks the source program: after compile() / run() the user's "
+           "program still accepts New / Del, which change the RegRefs it shares with the program the simulator was set up for",
+           role="locks-source", line=f.node.lineno)
+    r = ctx.tree.func(ENG, "BaseEngine._run")
+    inits = [c for c in walk_no_nested(r.node) if isinstance(c, ast.Call) and dotted(c.func) == "self._init_backend" and c.args]
+    ctx.require(inits, "BaseEngine._run no longer calls self._init_backend")
+    for c in inits:
+        d = derives(r.node, c.args[0])
+        ok = "init_num_subsystems" in d.attr_reads
+        ctx.ob(rule, r.site, ok, "" if ok else f"`{ast.unparse(c)[:50]}`: the backend is not initialised with the initial number "
+               "of subsystems of the program (New / Del inside the program are applied again on top)", role="init-count",
+               line=c.lineno)
+
+
 def rules(ctx):
     ownership(ctx)
     validation(ctx)
     remap_guard(ctx)
+    remap_snapshot(ctx)
+    lifecycle(ctx)
     G.active_guards(ctx, "C08.active-guard", G.GAUSS, "GaussianModes", ("nmat", "mmat", "mean", "active"), GAUSS_EXC)
     G.active_guards(ctx, "C08.active-guard", B.BOS, "BosonicModes", ("means", "covs", "weights", "active"), BOS_EXC)
     ctx.floor("C08.active-guard", 28)
